@@ -229,7 +229,7 @@ Qed.
 Print Assumptions C20_history_nonvacuous.
 
 (* Former finding C20-F1 (operations differing only in an attribute shared one alternative), repaired by fix
-   29d845f which the model mirrors: two kernels that differ in the predicate of arith.cmpi only now get two
+   61ae0b2 which the model mirrors: two kernels that differ in the predicate of arith.cmpi only now get two
    alternatives, the second kernel decodes to switch value 1 and the merged PE computes ITS function. *)
 Example C20_attr_kernels_distinct :
   exists g1 g2 G,
